@@ -28,10 +28,8 @@ def _digests(args):
     key, base, indices = args
     m = runner.get_machine(key)
     out = {}
-    for i in indices:
-        seed = derive(base, m.pid, i)
-        plan, res = kernel.run_seed(m, seed)
-        out[i] = (res['verdict'], res['digest'], res['steps'])
+    for res in kernel.run_chunk(m, base, indices, 100, [], 0, 0, 600):
+        out[res['index']] = (res['verdict'], res['digest'], res['steps'])
     return out
 
 
@@ -48,6 +46,8 @@ def all_keys():
 
 
 def digests_for(key, n, workers, base=12345):
+    runner.warm_imports()
+    runner.warm_run(key)
     ctx = mp.get_context('fork')
     idx = list(range(n))
     chunks = [idx[i::workers] for i in range(workers)]
